@@ -289,6 +289,8 @@ void ProtoRun::hand_to_receiver(int dir, const Bytes &unit, bool tampered_in, co
             obs.fatal_alert_given[role] = true; obs.fatal_alert_desc[role] = unit[hdr + 1];
         }
     }
+    bool skip_watch = role == 1 && pc.version == v_tls_1_3 && !rcv.is_complete() && unit.size() > 5 && unit[0] == 23 && !obs.death[role].dead;
+    int hs_before = rcv.hs_state(); size_t out_pending_before = rcv.pending_out(); size_t ev_n = rcv.events.size();
     if (split && !pc.dtls() && unit.size() > 1) {
         // stream re-chunking: the same bytes in 2..4 pieces at seeded offsets (a legal transport behaviour)
         size_t off = 0; int pieces = 1 + split;
@@ -301,6 +303,10 @@ void ProtoRun::hand_to_receiver(int dir, const Bytes &unit, bool tampered_in, co
         rcv.feed(unit.data(), unit.size());
     }
     if (tampered) { obs.tamper_consumed[dir] = true; }
+    if (skip_watch && rcv.alive() && !rcv.is_dead() && !rcv.is_complete() && rcv.hs_state() == hs_before && rcv.delivered.size() == before && rcv.pending_out() == out_pending_before) {
+        bool errored = false; for (size_t i = ev_n; i < rcv.events.size(); i++) { if (rcv.events[i].rc < 0) { errored = true; } }
+        if (!errored) { size_t bl = unit.size() - 5; obs.skipped_undecryptable_bytes += bl > 17 ? bl - 17 : 0; obs.skipped_records++; obs.counters["early.server_skipped_record"]++; }
+    }
     if (was_dead) {
         if (rcv.delivered.size() > before) { obs.appdata_after_death[role] += (int) (rcv.delivered.size() - before); }
         for (size_t i = ev_before; i < rcv.events.size(); i++) {
@@ -438,14 +444,36 @@ void ProtoRun::do_op(const Op &op) {
         Bytes pl = tagged_payload(dir, idx, len);
         bool complete_before = e.is_complete();
         bool was_dead = obs.death[role].dead;
+        // TLS 1.3 0-RTT: a client whose ticket permits early data may write before completion (that is early data), and a server that
+        // ACCEPTED early data may answer it before the client's Finished (0.5-RTT data)
+        vsim_set_node(e.node);
+        bool early_client = dir == DIR_C2S && pc.version == v_tls_1_3 && !complete_before && matrixSslGetMaxEarlyData(e.ssl) > 0;
+        bool early_server = dir == DIR_S2C && pc.version == v_tls_1_3 && !complete_before && pc.max_early_data > 0 && plan.get("resume") != 0 && plan.get("early1", plan.get("early")) > 0 &&
+                            (matrixSslGetEarlyDataStatus(e.ssl) == MATRIXSSL_EARLY_DATA_ACCEPTED || e.hs_state() == 27 /* SSL_HS_TLS_1_3_WAIT_EOED: early data accepted, its end awaited */);
         int rc = e.app_send(pl.data(), pl.size(), op.c & 1);
         if (rc >= 0) {
             // fragmented by the library into <=16384-byte records; the stream is what matters
-            obs.sent[dir].push_back(pl);
+            if (early_client) { obs.early_sent.push_back(pl); obs.early_write_ok++; obs.counters["early.client_write_ok"]++; }
+            else { obs.sent[dir].push_back(pl); }
             if (was_dead) { obs.encode_ok_after_death[role]++; }
             else if (e.app_closed) { obs.counters["encode_ok_after_own_close"]++; obs.encode_ok_after_death[role]++; }
-            if (!complete_before) { obs.encode_ok_before_complete[role]++; }
+            if (!complete_before && !early_client && !early_server) { obs.encode_ok_before_complete[role]++; }
+            if (early_server) { obs.counters["early.server_half_rtt_write"]++; }
         }
+        after_event();
+        w.collect(DIR_C2S); w.collect(DIR_S2C);
+    } else if (op.k == "early_send") {
+        // TLS 1.3 client writes application data before the handshake completed (0-RTT): legitimate only while the library says the
+        // ticket it resumes with permits early data
+        MxEndpoint &e = *w.cli;
+        if (!e.alive() || e.is_complete()) { return; }
+        vsim_set_node(e.node);
+        int permitted = matrixSslGetMaxEarlyData(e.ssl);
+        size_t len = (size_t) (op.b > 0 ? op.b : 1); if (len > 16000) { len = 16000; }
+        Bytes pl = tagged_payload(0, 900 + (int) obs.early_sent.size() + encode_attempts++, len);
+        int rc = e.app_send(pl.data(), pl.size(), (op.c & 1) != 0);
+        if (rc >= 0) { obs.early_sent.push_back(pl); obs.early_write_ok++; obs.counters["early.client_write_ok"]++; if (permitted <= 0) { obs.early_write_unpermitted++; } }
+        else { obs.early_write_refused++; obs.counters["early.client_write_refused"]++; }
         after_event();
         w.collect(DIR_C2S); w.collect(DIR_S2C);
     } else if (op.k == "arm") {
@@ -498,6 +526,7 @@ void ProtoRun::run() {
     bool want_sibling = plan.get("sibling") != 0 || plan.get("resume") != 0;
     if (want_sibling) {
         captured_reset = true; ccs_emitted[0] = ccs_emitted[1] = false;
+        w.pc.max_early_data = (int) plan.get("early1", plan.get("early"));     // the connection that issues the ticket may use another early-data limit
         if (!w.connect()) { setup_failed = true; setup_detail = "sibling connect failed"; g_q = nullptr; return; }
         audit.add_session(w.cli->ssl, vsim_sizeof_ssl(), w.cli->node, pc.dtls()); audit.add_session(w.srv->ssl, vsim_sizeof_ssl(), w.srv->node, pc.dtls());
         deliver_all();
@@ -528,6 +557,7 @@ void ProtoRun::run() {
     captured_reset = true;
     armed[0].on = armed[1].on = false; pending_gap[0] = pending_gap[1] = false; swap_pending[0] = swap_pending[1] = false;
     next_honest[0] = next_honest[1] = 0; ccs_emitted[0] = ccs_emitted[1] = false;
+    w.pc.max_early_data = (int) plan.get("early");
     if (!w.connect(plan.get("resume") != 0)) { setup_failed = true; setup_detail = "connect failed cli=" + std::to_string(w.cli ? w.cli->create_rc : 0) + " srv=" + std::to_string(w.srv ? w.srv->create_rc : 0); g_q = nullptr; return; }
     if (on_api) { w.cli->on_api = on_api; w.srv->on_api = on_api; }
     split = (int) plan.get("split");
